@@ -494,9 +494,12 @@ class Data:
         lat_seq = full_lat_seq[space_indices]
         lon_seq = full_lon_seq[space_indices]
 
+        # Construct the grid first: it raises for an empty selection, and the
+        # object must then keep its previous (consistent) window
+        grid = GeoGrid(time, lat_seq, lon_seq, self.silence_level)
         self._observable = \
             self._full_observable[time_indices, :][:, space_indices]
-        self.grid = GeoGrid(time, lat_seq, lon_seq, self.silence_level)
+        self.grid = grid
 
     def set_global_window(self):
         """
